@@ -10,7 +10,7 @@ open Pharmpy Pharmpy.C17 Pharmpy.C17.DiGraph
     (call   TASKS OPS b)               -> dict of the workflow call_workflow submits
     (replay TASKS OPS b (name ...))    -> value at 'results' along the given firing order
 
-  TASKS = ((id takesCtx (SARG ...)) ...)       SARG = (s "x") | ctx | (call j "a" ...) | (list ATOM ...)
+  TASKS = ((id takesCtx (SARG ...) [name]) ...)       SARG = (s "x") | ctx | (call j "a" ...) | (list ATOM ...)
   OPS   = (new b) | (newtasks b (t ...)) | (add b t none|(p ...)) | (replace b old new)
         | (insert b b2 none|(p ...)) | (freeze b2 b1) | (plus b3 b1 b2)
 -/
@@ -45,6 +45,10 @@ def task? : Sexp → Option (Nat × Task)
     match i.asNat?, c.asBool?, st.mapM sarg? with
     | some i, some c, some st => some (i, ⟨i, c, st⟩)
     | _, _, _ => none
+  | .list [i, c, .list st, nm] =>
+    match i.asNat?, c.asBool?, st.mapM sarg?, nm.asNat? with
+    | some i, some c, some st, some nm => some (i, ⟨nm, c, st⟩)
+    | _, _, _, _ => none
   | _ => none
 
 def tasks? (x : Sexp) : Option Table :=
@@ -216,11 +220,9 @@ def handle (req : Sexp) : Sexp :=
       let (st, g') := executedWorkflow ⟨tb, nextId tb⟩ (bs.get b)
       match asDaskDict st.tb g' with
       | .ok d =>
-        match ord.mapM (nameToKey d) with
-        | some ks => match replay d ks with
-          | some v => .list [.atom "ok", .atom v]
-          | none => .atom "inadmissible"
-        | none => .atom "unknown-task"
+        match replayNames d ord with
+        | some v => .list [.atom "ok", .atom v]
+        | none => .atom "inadmissible"
       | .error _ => .list [.atom "err", .atom "ValueError"]
     | _, _, _ => bad
   | _ => bad
